@@ -1022,12 +1022,13 @@ class Rewriter:
                 fdata = fp.read()
 
             # Generate line offsets numbers
-            m_lines = fdata.splitlines(True)
+            # Only '\n' ends a line for the lexer; str.splitlines() also splits at \f, \v, U+2028, ...
+            m_lines = fdata.split('\n')
             offset = 0
             line_offsets = []
             for j in m_lines:
                 line_offsets += [offset]
-                offset += len(j)
+                offset += len(j) + 1
 
             files[T.cast(str, i['file'])] = {
                 'path': fpath,
